@@ -27,6 +27,11 @@ CHECKS = {
    technique="generated program corpus (gen/c10.py: macro invocations from a grammar of prefixes x field forms x value kinds x message forms, each with counting wrappers and an expected typed visit sequence) driven by proptest-generated values, collector filtering configurations and run orders; oracle = descriptor vs. what a typed recording collector saw",
    text="300 (thorough 900, regenerated from VERIF_SEED) generated invocations of span!/event!/the ten level shorthands/enabled!/event_enabled!/span_enabled! with name:/target:/parent: prefixes, 0-6 fields of the forms name = value, % and ? sigils, shorthand and sigil shorthand (through a Deref that counts evaluations), dotted, string-literal, constant and r# names, Empty, over 37 value kinds (all integer widths, NonZero, Wrapping, f32/f64, bool, str/String/Box<str>, bytes, references, Box, display()/debug(), error chains) and literal / positional / captured / width-precision messages. Each case runs 1-6 (form, values) pairs with boundary-biased values under a collector with an optional max level hint, per-level interest never/sometimes/always, per-level enabled() answers and per-target never/off overrides. Enabled: exactly one new_span/event with the macro's level, target, name, parent and declared field names in order; the visitor sees each valued field once, in declaration order (message first), through the method of its type with the exact value (bit-exact floats, Display/Debug text for sigils); every expression evaluated exactly once; Empty not visited, later record of an Empty field presented once, record of an undeclared name ignored. Disabled by the level cap, interest never, or enabled() false: no expression evaluated, no collector call, a disabled span handle.",
    note="Built without tracing's log feature. r# names are accepted under either spelling. Forms the macros reject at compile time are outside the property; the generator's grammar avoids the one known parsing ambiguity (a prefix followed by a non-identifier first field in a level shorthand) by using event! there."),
+ "C17": dict(
+   category="exploration", design="DESIGN.md §4 C17",
+   technique="generated program corpus (gen/c17.py: twin functions, plain and #[instrument]ed, from a grammar of function styles x argument patterns x return shapes x attribute arguments) driven by proptest-generated inputs, collector modes and poll schedules through one deterministic executor; oracle = differential twin + descriptor vs. recording collector log",
+   text="200 (thorough 500, regenerated from VERIF_SEED) generated twins: sync / async / boxed-future (Box::pin spelled three ways, or a bare async block) / methods with &self, &mut self, self; 0-4 arguments from 19 patterns (Value and Debug types, &, &mut, tuple and struct destructuring, generic, impl Trait, drop-logging tokens); return shapes unit / value / Result / impl Display with early return, `?` and panic; attribute arguments level (3 spellings), name, target, parent = None or a span argument, follows_from, skip, fields over the arguments (sigils, Empty), ret / err with level and Display / Debug. Each case runs 1-3 (twin, inputs) calls, first the plain then the instrumented variants, under the same interleaving poll schedule and one of: recording collector, interest never, enabled() false, max-level hint 1-5, no collector, optionally inside an outer span. Differential: same return value / panic payload, same effect sequence, same drop counts, same state of &mut arguments, same number of polls. Span log: exactly one span per call with the configured name, level, target, parent, follows_from and typed fields (skipped absent); entered once per call (sync) / per poll (async), never outside the call; every body effect inside it; ret / err events with the right level, target and value, inside the span; nothing when disabled.",
+   note="This version of the attribute has no skip_all (not generated). Drop order is not compared, drop counts are. An async twin's span may be entered once more than it is polled (the inner future is dropped inside the span). ret alone on a Result-returning function presents the whole Result. Found and fixed F23 (target before parent / follows_from rejected at compile time)."),
  "C13": dict(
    category="exploration", design="DESIGN.md §4 C13",
    technique="proptest-generated (formatter, options, writer expression, multi-thread workload) cases; oracle = denotation of the writer expression over recording sinks + per-record predicates on the bytes of each individual write call",
